@@ -46,7 +46,11 @@ TCopyUninit == /\ Is("CopyUninit") /\ Step
                /\ Must(Ev.eof = 1 /\ Ev.os = TotOut /\ Ev.is = TotIn, "logged end state")
                /\ Must(("heapk" \in DOMAIN Ev) => Ev.heapk <= 64, "the heap is back to its size at the start of the run")
                /\ UNCHANGED cvars /\ Keep
-Next == TReset \/ TStart \/ TCopyInit \/ TSrcTake \/ TCopyAvail \/ TSinkPush \/ TSinkPop \/ TSrcRel \/ TCopyWritten
+\* the main thread's path through main.c / signals.c (validated by TraceCrash.tla) is stuttering here
+MainPathEv == {"OpIn", "Cli", "OpOut", "Worked", "Halt", "OutDone", "InRm", "Sti", "StiDone", "InDone", "Exit", "Cleanup", "Terminate", "BailoutMain", "BailoutSub"}
+TMainPath == l <= Len(TraceLog) /\ Ev.e \in MainPathEv /\ Step /\ UNCHANGED cvars /\ Keep
+
+Next == TMainPath \/ TReset \/ TStart \/ TCopyInit \/ TSrcTake \/ TCopyAvail \/ TSinkPush \/ TSinkPop \/ TSrcRel \/ TCopyWritten
         \/ TEof \/ TCopyTerm \/ TSinkFinish \/ TSinkExit \/ TSrcStop \/ TCopyUninit
 Spec == Init /\ [][Next]_tvars
 NotAccepted == l <= Len(TraceLog)
